@@ -1,8 +1,96 @@
-(* C34 - channel names normalise consistently; pinned tracks cannot be switched. *)
-From Coq Require Import List NArith Bool.
+(* C34 - channel names normalise consistently; pinned tracks cannot be switched.
+   This file holds the property theorems only: statement, `exact <lemma>`, Print Assumptions.
+   Model: models/Channel.v (snap/channel/channel.go function by function); the risk list and the two defaults of
+   Channel.Clean come from gen/ChannelRisks.v, regenerated from the Go source on every run.
+   All theorems quantify over ALL byte strings / ALL Channel values (no bound). *)
+From Coq Require Import List NArith Bool String.
 Import ListNotations.
 Require Import V.lib.Bytes V.gen.ChannelRisks V.models.Channel V.proofs.ChannelProofs.
 
+(* normalising twice equals normalising once - for every Channel value, whether or not it came from the parser *)
 Theorem C34_clean_idempotent : forall c : chan, clean (clean c) = clean c.
 Proof. exact clean_idempotent. Qed.
 Print Assumptions C34_clean_idempotent.
+
+(* parsing a channel and printing it again is stable: whenever Parse(s, arch) succeeds with c, Parse(c.String(), arch)
+   succeeds with the very same channel (architecture, name, track, risk and branch) *)
+Theorem C34_parse_print_stable : forall (sys s arch : bytes) (c : chan),
+  parse sys s arch = Some c -> parse sys (chan_string c) arch = Some c.
+Proof. exact parse_print_stable. Qed.
+Print Assumptions C34_parse_print_stable.
+
+(* the full form of every parsed channel is track/risk[/branch]: the risk is one of the four, the shown track is never
+   empty and is `latest` exactly when the channel has no track, and Channel.Full never panics *)
+Theorem C34_full_names_track_and_risk : forall (sys s arch : bytes) (c : chan),
+  parse sys s arch = Some c ->
+  In (c_risk c) risks /\
+  shown_track c <> [] /\
+  (shown_track c = default_track <-> c_track c = []) /\
+  chan_full c = Some (shown_track c ++ slash :: c_risk c ++ (if is_nil_b (c_branch c) then [] else slash :: c_branch c)).
+Proof. exact full_names_track_and_risk. Qed.
+Print Assumptions C34_full_names_track_and_risk.
+
+(* a request that starts with a risk name is resolved to <current track>/<request> when the current channel has a track *)
+Theorem C34_resolve_risk_first : forall (cur new : bytes) (ch : chan),
+  parse_verbatim [] cur dash = Some ch -> is_nil_b new = false -> is_risk (hd_comp new) = true ->
+  resolve cur new = Some (if is_nil_b (c_track ch) then new else c_track ch ++ slash :: new).
+Proof. exact resolve_risk_first. Qed.
+Print Assumptions C34_resolve_risk_first.
+
+(* a risk-only (or risk/branch) request keeps the current track: the resolved channel parses, with the current track and
+   the requested risk and branch.
+   GUARD: the current track is not spelled like a risk name. The full statement (without `is_risk (c_track ch) = false`)
+   is false, see C34_risk_only_track_named_like_risk_refuted. *)
+Theorem C34_risk_only_keeps_track : forall (cur new : bytes) (ch nc : chan),
+  parse_verbatim [] cur dash = Some ch ->
+  parse_verbatim [] new dash = Some nc ->
+  c_track nc = [] ->
+  is_risk (c_track ch) = false ->
+  exists r rc,
+    resolve cur new = Some r /\
+    r = (if is_nil_b (c_track ch) then new else c_track ch ++ slash :: new) /\
+    parse_verbatim [] r dash = Some rc /\
+    c_track rc = c_track ch /\ c_risk rc = c_risk nc /\ c_branch rc = c_branch nc.
+Proof. exact risk_only_keeps_track. Qed.
+Print Assumptions C34_risk_only_keeps_track.
+
+(* ... and without the guard it fails: Resolve(edge/stable/hotfix, beta) = edge/beta, which the parser reads as
+   risk edge, branch beta (KNOWN_FINDINGS key resolve-track-spelled-like-risk; replayed on the implementation on every run) *)
+Theorem C34_risk_only_track_named_like_risk_refuted :
+  exists cur new ch nc r rc,
+    parse_verbatim [] cur dash = Some ch /\ parse_verbatim [] new dash = Some nc /\ c_track nc = [] /\
+    resolve cur new = Some r /\ parse_verbatim [] r dash = Some rc /\ c_track rc <> c_track ch.
+Proof. exact risk_only_refuted. Qed.
+Print Assumptions C34_risk_only_track_named_like_risk_refuted.
+
+(* under a pinned track a request is refused, or the result is the pinned track itself or starts with `track/`; and
+   whatever the parser then reads in the result has exactly the pinned track: the pinned track cannot be switched *)
+Theorem C34_pinned : forall track new : bytes, track <> [] ->
+  match resolve_pinned track new with
+  | POk r => (r = track \/ has_prefix (track ++ [slash]) r = true) /\
+             (forall rc, parse_verbatim [] r dash = Some rc -> c_track rc = track)
+  | PInvalid | PSwitch => True
+  end.
+Proof. exact pinned_cannot_switch. Qed.
+Print Assumptions C34_pinned.
+
+(* non-vacuity: the hypotheses are satisfiable and the functions do what the names say on ordinary inputs *)
+Example C34_ex_parse : parse (bs "amd64") (bs "latest/edge") [] = Some (mkChan (bs "amd64") (bs "edge") [] (bs "edge") []).
+Proof. vm_compute. reflexivity. Qed.
+Example C34_ex_parse_track : parse [] (bs "foo") (bs "arm64") = Some (mkChan (bs "arm64") (bs "foo/stable") (bs "foo") (bs "stable") []).
+Proof. vm_compute. reflexivity. Qed.
+Example C34_ex_full : chan_full (mkChan (bs "arm64") (bs "edge/fix") [] (bs "edge") (bs "fix")) = Some (bs "latest/edge/fix").
+Proof. vm_compute. reflexivity. Qed.
+Example C34_ex_resolve : resolve (bs "foo/stable") (bs "edge") = Some (bs "foo/edge").
+Proof. vm_compute. reflexivity. Qed.
+Example C34_ex_resolve_hyps : exists ch nc, parse_verbatim [] (bs "foo/stable") dash = Some ch /\
+  parse_verbatim [] (bs "edge/fix") dash = Some nc /\ c_track nc = [] /\ is_risk (c_track ch) = false.
+Proof. eexists. eexists. split; [vm_compute; reflexivity|]. split; [vm_compute; reflexivity|]. split; vm_compute; reflexivity. Qed.
+Example C34_ex_pinned_ok : resolve_pinned (bs "foo") (bs "edge") = POk (bs "foo/edge").
+Proof. vm_compute. reflexivity. Qed.
+Example C34_ex_pinned_same : resolve_pinned (bs "foo") (bs "foo/beta") = POk (bs "foo/beta").
+Proof. vm_compute. reflexivity. Qed.
+Example C34_ex_pinned_switch : resolve_pinned (bs "foo") (bs "bar/edge") = PSwitch.
+Proof. vm_compute. reflexivity. Qed.
+Example C34_ex_pinned_invalid : resolve_pinned (bs "foo/edge") (bs "edge") = PInvalid.
+Proof. vm_compute. reflexivity. Qed.
